@@ -77,6 +77,7 @@ pub struct RunResult {
     pub fault: bool,
     pub capped: bool,
     pub allocs: usize,
+    pub tape_growths: usize,
     pub alloc_failed: usize,
     /// results of the repeated executions differ from the first one
     pub repeat_differs: bool,
@@ -117,6 +118,7 @@ fn exec_once<C: CellType, X: Executable<C>>(
     };
     let mut allocs = 0;
     let mut alloc_failed = 0;
+    let mut tape_growths = 0;
     let ret = {
         let mut cxt = Context::<C>::new(reader, writer);
         let r = catch_unwind(AssertUnwindSafe(|| {
@@ -124,6 +126,7 @@ fn exec_once<C: CellType, X: Executable<C>>(
             if let Some((lo, hi)) = cfg.pregrow {
                 cxt.memory.make_accessible(lo, hi);
             }
+            let g0 = galloc::tape_growths();
             let r = match cfg.mode.as_str() {
                 "limited" => {
                     cxt.budget = cfg.budget as usize;
@@ -134,6 +137,7 @@ fn exec_once<C: CellType, X: Executable<C>>(
             };
             allocs = galloc::armed_count();
             alloc_failed = galloc::failed_count();
+            tape_growths = galloc::tape_growths() - g0;
             galloc::disarm();
             r
         }));
@@ -152,6 +156,7 @@ fn exec_once<C: CellType, X: Executable<C>>(
         capped: rec.capped,
         allocs,
         alloc_failed,
+        tape_growths,
         repeat_differs: false,
     }
 }
@@ -172,6 +177,7 @@ fn run_with<'c, C: CellType, X: Executor<'c, C>>(
                 fault: false,
                 capped: false,
                 allocs: 0,
+                tape_growths: 0,
                 alloc_failed: 0,
                 repeat_differs: false,
             }
@@ -183,6 +189,7 @@ fn run_with<'c, C: CellType, X: Executor<'c, C>>(
                 fault: false,
                 capped: false,
                 allocs: 0,
+                tape_growths: 0,
                 alloc_failed: 0,
                 repeat_differs: false,
             }
@@ -305,7 +312,7 @@ pub fn op_run(req: &Value) {
         }
         let key = (r.log.clone(), r.ret.clone(), r.fault, 0usize);
         let mut line = json!({"id": id, "run": i, "ret": r.ret, "fault": r.fault as u8,
-            "capped": r.capped as u8, "allocs": r.allocs, "allocFailed": r.alloc_failed,
+            "capped": r.capped as u8, "allocs": r.allocs, "allocFailed": r.alloc_failed, "tapeGrowths": r.tape_growths,
             "repeatDiffers": r.repeat_differs as u8});
         if let Some(j) = seen.iter().position(|s| s.0 == key.0 && s.1 == key.1 && s.2 == key.2) {
             line["same"] = json!(seen[j].3);
